@@ -22,6 +22,7 @@ import Kvass.Spec.Loop
 import Kvass.Proofs.CoordQuiet
 import Kvass.Proofs.CoordNeed
 import Kvass.Proofs.CoordGcWhole
+import Kvass.Proofs.LoopStable
 
 namespace Kvass.Props.C03
 open Kvass Kvass.Coord Kvass.Spec
@@ -194,6 +195,35 @@ theorem C03_scaleUp (swr : Swr) (sc : Sched) (inp : Input)
       apply Coord.clamp_exceeds
       · rw [← hlen]; exact this
       · exact hmax
+
+/-- **C03 (progress of one cycle)**: all shards in sync, the cycle did not crash and more shards are
+    allowed.  Then either the last requested shard count exceeds the current one, or *every*
+    discovered, healthy, not too big target of non-zero size is planned on some shard after the
+    cycle — nothing eligible is silently left out. -/
+theorem C03_all_placed_or_scale_up (swr : Swr) (sc : Sched) (inp : Input)
+    (hsync : ∀ p ∈ inp.probes, inSync p = true)
+    (hmp : 0 < inp.opt.maxProc) (hmh : 0 ≤ inp.opt.maxHead)
+    (hnn : ∀ k, 0 ≤ (globalOf (infos0 inp) inp.explore k).series ∧ 0 ≤ (globalOf (infos0 inp) inp.explore k).total)
+    (hfull : ∀ k ∈ inp.active, k ∈ sc.assign)
+    (hnc : (cycle swr sc inp).crashed = false)
+    (hmax : (inp.probes.length : Int) < inp.opt.maxShard) :
+    (∃ k, (cycle swr sc inp).scales.getLast? = some k ∧ (inp.probes.length : Int) < k) ∨
+    (∀ h ∈ inp.active, Gen.assignSkip (globalOf (infos0 inp) inp.explore h) = false →
+      Gen.tooBig inp.opt (globalOf (infos0 inp) inp.explore h) = false →
+      0 < (globalOf (infos0 inp) inp.explore h).series + (globalOf (infos0 inp) inp.explore h).total →
+      ∃ s ∈ (cycle swr sc inp).final, s.scraping.get h ≠ none) := by
+  by_cases hup : ∃ k, (cycle swr sc inp).scales.getLast? = some k ∧ (inp.probes.length : Int) < k
+  · exact Or.inl hup
+  · right
+    intro h ha hskip hbig hsz
+    apply Classical.byContradiction
+    intro hno
+    apply hup
+    apply C03_scaleUp swr sc inp hsync hmp hmh hnn hfull h ha hskip hbig hsz _ hnc hmax
+    intro s hs
+    cases hg : s.scraping.get h with
+    | none => rfl
+    | some v => exact absurd ⟨s, hs, by rw [hg]; simp⟩ hno
 
 /-- non-vacuity: one in-sync shard filled to 90/100 head series, a healthy unscraped target of 30
     series: nothing fits, the cycle asks for 2 shards -/
@@ -378,5 +408,25 @@ theorem afterGc_eq (swr : Swr) (sc : Sched) (inp : Input) (hne : stopsEarly inp 
         else if Gen.scaleDownOn inp.opt = true then tryScaleDown inp.opt sc r3.1 r3.2.1
         else (Gen.scaleInit (r3.1.shards.length : Int) (nChangeable r3.1.shards), r3.1)) = r
     split <;> rfl
+
+/-! ### the closed loop (`Loop.step`): coordinator + sidecars + StatefulSet -/
+
+/-- **C03 (stability, closed loop)**: one fault-free cycle from a quiet state leaves the
+    StatefulSet's size, the discovered set and every sidecar's statuses and idle time unchanged -/
+theorem C03_stable_world (swr : Swr) (env : Loop.Env) (w : Loop.World) (sc : Sched)
+    (hq : Quiet swr (Loop.inputOf env w [] false)) (hrep : w.replicas ≤ w.shards.length)
+    (hidle : ∀ sh ∈ w.running, sh.sc.status = [] → sh.sc.idleAt.isSome = true) :
+    Loop.Unchanged w (Loop.cycleStep swr env w sc [] false).1 := by
+  obtain ⟨r1, r2, r3, r4, r5⟩ := Loop.loop_stable swr env w sc hq hrep hidle
+  exact ⟨r1, r2, r3, r4, r5⟩
+
+/-- **C03 ("further cycles then change nothing")**: from a quiet state, with scale-down switched
+    off, any number of fault-free cycles with arbitrary schedules changes nothing -/
+theorem C03_further_cycles (swr : Swr) (env : Loop.Env) (hoff : env.opt.idleOn = false)
+    (scs : List Sched) (w : Loop.World) (hq : Quiet swr (Loop.inputOf env w [] false))
+    (hrep : w.replicas ≤ w.shards.length)
+    (hidle : ∀ sh ∈ w.running, sh.sc.status = [] → sh.sc.idleAt.isSome = true) :
+    Loop.Unchanged w (Loop.cycles swr env w scs) :=
+  Loop.loop_stable_n swr env hoff scs w hq hrep hidle
 
 end Kvass.Props.C03
